@@ -592,19 +592,38 @@ Definition abs_id (did base k : string) : string := if starts_hash k then resolv
 
 Record vmeth := { m_id : string; m_type : string; m_ctrl : string; m_rel : bool; m_key : string * json }.
 
-Definition ed2020 : string := "Ed25519VerificationKey2020".
+(* a type whose key populateRawVerificationMethod writes as publicKeyMultibase (generated list) *)
+Definition mb_type (ty : string) : bool := mem ty vm_multibase_types.
+Definition zchar : ascii := "z"%char.
+
+(* the jwk package: go-jose keeps these members of a JWK; for X25519 / secp256k1 / BLS12-381 G2 keys the package
+   reads the members of its own struct (generated list); every other member (key_ops, custom ones) is dropped *)
+Definition jose_members : list string :=
+  ["use"; "kty"; "kid"; "crv"; "alg"; "k"; "x"; "y"; "n"; "e"; "x5c"; "x5u"; "x5t"; "x5t#S256"].
+Definition jwk_custom_type (jw : obj) : bool :=
+  let crv := str_entry (lookup jw "crv") in
+  (crv =? "X25519") || (crv =? "secp256k1") || (crv =? "BLS12381_G2") || (str_entry (lookup jw "alg") =? "ES256K").
+Definition jwk_out (jw : obj) : obj :=
+  let keep := if jwk_custom_type jw then jwk_custom_members else jose_members in
+  f64o (filter (fun kv => mem (fst kv) keep) jw).
+
 (* decodeVM / populateRawVerificationMethod on the key material: the member the key is written back as.
-   base58 and multibase(z) texts are canonical encodings of the key bytes (btcutil, sampled); a JWK is re-marshalled *)
-Definition dec_key (ty : string) (m : obj) : option (string * json) :=
+   base58 and multibase(z) texts are canonical encodings of the key bytes (btcutil, sampled); a JWK is re-marshalled.
+   AsIs: a key of a multibase type that was not given as multibase was written with the zero encoding (raw bytes after
+   NUL, no text form: the model refuses); fix 1b73692 defaults to base58-btc *)
+Definition dec_key (w : variant) (ty : string) (m : obj) : option (string * json) :=
   let b58 := str_entry (lookup m "publicKeyBase58") in
-  if negb (b58 =? "") then (if ty =? ed2020 then None else Some ("publicKeyBase58", JStr b58)) else
+  if negb (b58 =? "") then
+    (if mb_type ty then match w with AsIs => None | Fixed => Some ("publicKeyMultibase", JStr (String zchar b58)) end
+     else Some ("publicKeyBase58", JStr b58))
+  else
   match str_entry (lookup m "publicKeyMultibase") with
   | String c rest =>
-      if Ascii.eqb c "z"%char then
-        (if ty =? ed2020 then Some ("publicKeyMultibase", JStr (String c rest)) else Some ("publicKeyBase58", JStr rest))
+      if Ascii.eqb c zchar then
+        (if mb_type ty then Some ("publicKeyMultibase", JStr (String c rest)) else Some ("publicKeyBase58", JStr rest))
       else None
   | EmptyString =>
-      match lookup m "publicKeyJwk" with Some (JObj jw) => Some ("publicKeyJwk", JObj jw) | _ => None end
+      match lookup m "publicKeyJwk" with Some (JObj jw) => Some ("publicKeyJwk", JObj (jwk_out jw)) | _ => None end
   end.
 
 (* populateVerificationMethod (context v1).  AsIs: the controller of a method with a relative id was overwritten
@@ -613,7 +632,7 @@ Definition dec_vm (w : variant) (did base : string) (m : obj) : option vmeth :=
   let id := str_entry (lookup m "id") in
   let ctrl := str_entry (lookup m "controller") in
   let ty := str_entry (lookup m "type") in
-  match dec_key ty m with
+  match dec_key w ty m with
   | None => None
   | Some k =>
       if starts_hash id then
